@@ -280,6 +280,27 @@ impl<W: WorldSpec> Engine<W> {
         self.ms[wid].clear_entities();
     }
 
+    /// An unrelated world of the same type (different history, different capacities): its handles
+    /// are foreign everywhere else and vice versa ("crossed wires").
+    pub fn op_spawn(&mut self, c: u64) {
+        if self.alive_worlds().len() >= 4 {
+            return;
+        }
+        let caps: Vec<usize> = (0..W::archs().len()).map(|i| (mix(c, i as u64) % 9) as usize).collect();
+        match catch(|| W::with_caps(&caps)) {
+            Ok(w) => {
+                let mut m = Model::new(&caps);
+                for (ai, d) in W::archs().iter().enumerate() {
+                    m.archs[ai].cap = d.capacity(&w);
+                }
+                self.ws.push(Some(w));
+                self.ms.push(m);
+                self.stats.inc("spawn_unrelated_world");
+            }
+            Err(cg) => vio("C10", "unexpected-panic", format!("World::with_capacity panicked: {}", cg.msg)),
+        }
+    }
+
     pub fn op_switch(&mut self, n: u8) {
         let alive = self.alive_worlds();
         if alive.len() > 1 {
@@ -672,6 +693,7 @@ impl<W: WorldSpec> Engine<W> {
             Op::AuditAll => self.audit_all_worlds(),
             Op::Bulk { a, n, p } => self.op_bulk(*a, *n, *p),
             Op::BulkDestroy { a, stride, phase } => self.op_bulk_destroy(*a, *stride, *phase),
+            Op::Spawn { c } => self.op_spawn(*c),
         }
     }
 
